@@ -350,6 +350,11 @@ def _symbolic_for(interp, s, frame, state, space, promoted=None):
                 # every path of the body raises from an arbitrary (havocked) loop state, and the loop is entered (hi > lo was decided):
                 # the first iteration raises, so does the loop statement
                 del st.side[side_mark:]
+                # a path that stops at an ENGINE LIMIT (unmodelled library function) is not a raise of the code: if any of the raising
+                # paths is one, the loop statement stops at an engine limit too (UNDECIDED), whatever the other paths raise
+                limit = [o for o in raises if o[2][1] == "unresolved-callee"]
+                if limit:
+                    raise PyRaise("unresolved-callee", f"every path of the loop body raises ({limit[0][2][2]})")
                 raise PyRaise(raises[0][2][1], f"every path of the loop body raises ({raises[0][2][2]})")
             raise EngineError("loop body has no normal path")
         normal = [_merge_paths(normal, where, lenient=promoted is None)]
